@@ -139,3 +139,32 @@ def mentions_call(term, suffix):
 
 def mentions_name(term, name):
     return G.mentions_param(term, name)
+
+
+def const_eval(term):
+    """integer value of a term built from literals/named integer consts with + - * (incl. the checked forms), else None"""
+    t = peel(term)
+    if not isinstance(t, tuple) or not t:
+        return None
+    if t[0] == "const" and isinstance(t[2], int):
+        return t[2]
+    if t[0] == "cast":
+        return const_eval(t[2])
+    if t[0] == "field" and t[2] == "0" and isinstance(t[1], tuple) and t[1][0] == "bin" and t[1][1].endswith("WithOverflow"):
+        return const_eval(("bin", t[1][1][:-len("WithOverflow")], t[1][2], t[1][3]))
+    if t[0] == "bin":
+        a, b = const_eval(t[2]), const_eval(t[3])
+        if a is None or b is None:
+            return None
+        op = t[1]
+        if op == "Add":
+            return a + b
+        if op == "Sub":
+            return a - b
+        if op == "Mul":
+            return a * b
+        if op == "Div" and b:
+            return a // b
+        if op == "Shl":
+            return a << b
+    return None
